@@ -10,8 +10,8 @@ import traceback
 import multiprocessing as mp
 
 VERIF_DIR = os.path.dirname(os.path.dirname(os.path.abspath(__file__)))
-EVID_DIR = os.path.join(VERIF_DIR, 'evidence')
-REPLAY_DIR = os.path.join(VERIF_DIR, 'replays')
+EVID_DIR = os.environ.get('PCVERIF_EVID_DIR') or os.path.join(VERIF_DIR, 'evidence')
+REPLAY_DIR = os.environ.get('PCVERIF_REPLAY_DIR') or os.path.join(VERIF_DIR, 'replays')
 KNOWN_FILE = os.path.join(VERIF_DIR, 'known_findings.json')
 NPROC = int(os.environ.get('PCVERIF_NPROC', '16'))
 MAX_REPLAYS = 6
